@@ -97,7 +97,7 @@ def run(res, tier, seed):
     for rj in rejects:
         ev = events[rj["line"]]
         cdir = cases[ev["sample"]]["dir"]
-        key = classify(ev)
+        key = rj["msg"].split(" ")[0][3:] if rj["msg"].startswith("KD:") else classify(ev)
         if key and key in known:
             res.known(known[key])
         else:
